@@ -1,0 +1,20 @@
+//go:build verif
+
+package timebase
+
+// Assumed contracts of the SystemClock interface (every implementation is assumed to satisfy them).
+
+// The property quantifies over configurations with drift > 0; a drift rate above 100% is not considered.
+//@ func (SystemClock).Drift
+//@   ensures positive: result > 0
+//@   ensures rate: duration > 0 ==> result <= duration
+
+//@ func (SystemClock).Sleep
+
+//@ func (SystemClock).Epoch
+
+//@ func (SystemClock).Now
+
+//@ func (SystemClock).Step
+
+//@ func (SystemClock).Adjust
